@@ -586,6 +586,13 @@ def burst_case(ctx, case):
     # ids no table of any version knows; the payload carries the index
     burst = [('raw', 0x7A + (i % 3), i.to_bytes(4, 'big') +
               bytes(sizes[i % len(sizes)])) for i in range(n)]
+    if case.get('play_compress') is not None and version == 47 and \
+            case.get('compress') is None:
+        # protocol 47 can switch compression on from the play state
+        burst.insert(min(case.get('at', 0), len(burst)),
+                     ('play_set_compression',
+                      {'threshold': case['play_compress']}))
+        ctx.label('burst_play_state_compression')
     srv = servers.Server({'version': version, 'login': login,
                           'play': {'bursts': [burst], 'mode': 'all',
                                    'end': 'disconnect'}})
@@ -823,13 +830,23 @@ def t_burst(ctx, n):
                              'compress': [None, 0, 64][k % 3],
                              'encrypt': bool(k % 2), 'sizes': [0, 70, 3],
                              'plan': 'whole'})
+    for t in (0, 64, 256):
+        for at in (0, 3):
+            for enc_ in (False, True):
+                burst_case(ctx, {'version': 47, 'n': 12, 'compress': None,
+                                 'encrypt': enc_, 'sizes': [0, 70, 300],
+                                 'plan': 'whole', 'play_compress': t,
+                                 'at': at})
     ctx.exhaustive_done('bursts of 49-320 frames at 3 protocols (around the '
-                        '50-packet pass limit of the networking loop)')
+                        '50-packet pass limit of the networking loop); '
+                        'play-state compression switch at protocol 47')
     strat = st.fixed_dictionaries({
         'version': st.sampled_from([757, 340, 47]),
         'n': st.integers(1, 200), 'compress': st.sampled_from([None, 0, 64]),
         'encrypt': st.booleans(),
         'sizes': st.lists(st.integers(0, 100), min_size=1, max_size=4),
+        'play_compress': st.sampled_from([None, None, 0, 64]),
+        'at': st.integers(0, 5),
         'plan': st.one_of(st.just('whole'),
                           st.lists(st.integers(1, 400), min_size=1,
                                    max_size=5))})
